@@ -26,12 +26,13 @@ assert os.path.abspath(mpilot.__file__).startswith(os.path.abspath(os.environ["V
 IDS = ["A", "B", "Slope", "res_1", "_x", "Elev2", "InFieldName", "x", "True", "False", "None"]
 CMDS = ["EEMSRead", "Sum", "CvtToFuzzy", "Copy", "Cmd", "READ", "FuzzyOr"]
 ARGS = ["InFieldName", "InFileName", "P", "Weights", "Metadata", "Q_1", "a"]
-PLAINS = ["abc", "data.csv", "/tmp/in.nc", "../out/x.csv", "C:\\temp\\a.csv", "50%", "a-b", "x.y.z", "LowToHigh", "Float", "é", "naïve", "R2D2", "_", "€uro", "Don\u2019t", "\u201cbest\u201d", "a\u00a0b"]
+PLAINS = ["abc", "data.csv", "/tmp/in.nc", "../out/x.csv", "C:\\temp\\a.csv", "50%", "a-b", "x.y.z", "LowToHigh", "Float", "é", "naïve", "R2D2", "_", "€uro", "Don\u2019t", "\u201cbest\u201d", "a\u00a0b", "3e8f2a1c_habitat.csv", "7e2nd_run", "1e5", "2E-3x"]
 STRS = ["", "text", "two words", "it's", 'say "hi"', "back\\slash", "tab\there", "line\nbreak", "é à ü", "\u2013 dash", "中文", "a,b=(c)[d]:#e", "  padded  ", "C:\\temp\\new.csv",
         "'quoted'", '"dq"', "ends with \\", "\\n literal", "x\ry", "\x07bell", "percent % and #hash",
         # characters an editor or a helpful pre-processing step may touch: typographic quotes and dashes, no-break and zero-width
         # spaces, a byte-order mark, full-width punctuation, a combining accent, an astral code point
-        "Don\u2019t build here", "the \u201cbest\u201d sites", "\u2018q\u2019", "a\u00a0b", "\ufeffbom", "zero\u200bwidth", "\uff08x\uff09\uff0c\uff1a", "e\u0301", "\U0001F600 ok", "\u00ab guillemets \u00bb"]
+        "Don\u2019t build here", "the \u201cbest\u201d sites", "\u2018q\u2019", "a\u00a0b", "\ufeffbom", "zero\u200bwidth", "\uff08x\uff09\uff0c\uff1a", "e\u0301", "\U0001F600 ok", "\u00ab guillemets \u00bb",
+        "form\x0cfeed", "v\x0btab", "fs\x1cgs\x1drs\x1e", "nel\x85x", "ls\u2028ps\u2029end"]
 
 
 class R(object):
@@ -39,16 +40,31 @@ class R(object):
 
     def __init__(self, rnd, nl):
         self.rnd, self.nl = rnd, nl
+        self.ended_cr = False
         self.out = []
         self.line = 1
         self.floats = {}
         self.tight = False      # the last token is an unquoted PLAIN_STRING: it would swallow blanks that follow it
+
+    def nlx(self, after_comment=False):
+        """one line break; in a text that mixes conventions each break has its own (CR CR LF is two breaks).  A comment runs to
+        the next LINE FEED (a bare CR does not end it), so the break that ends a comment is LF or CR LF."""
+        if self.nl == "mixed":
+            return self.rnd.choice(["\n", "\r\n"] if after_comment else ["\n", "\r\n", "\r", "\r\r\n", "\n\r"])
+        return self.nl
+
+    def nls(self, k, after_comment=False):
+        return "".join(self.nlx(after_comment and i == 0) for i in range(k))
 
     def emit(self, s, tight=False):
         self.out.append(s)
         self.tight = tight
         # line breaks: CRLF, CR, LF count once
         i = 0
+        if self.ended_cr and s.startswith("\n"):
+            i = 1                     # completes a CR LF begun by the previous piece
+        if s:
+            self.ended_cr = s.endswith("\r")
         while i < len(s):
             if s[i] == "\r":
                 self.line += 1
@@ -63,16 +79,17 @@ class R(object):
         if self.tight:
             # a path-like unquoted value swallows blanks that follow it, but a line break ends it
             if allow_nl and self.rnd.random() < 0.3:
-                self.emit(self.nl * self.rnd.choice([1, 1, 2]))
+                self.emit("".join(self.nlx() for _ in range(self.rnd.choice([1, 1, 2]))))
                 self.emit(self.rnd.choice(["", "    ", "\t"]))
             return
         r = self.rnd.random()
         if allow_nl and r < 0.18:
-            if self.rnd.random() < 0.3:
+            commented = self.rnd.random() < 0.3
+            if commented:
                 self.emit(self.rnd.choice(["  ", "\t", ""]) + "# " + self.rnd.choice(["note", "x = (1, [2])", "trailing \"q\"", ""]))
-            self.emit(self.nl * self.rnd.choice([1, 1, 1, 2, 3]))
+            self.emit(self.nls(self.rnd.choice([1, 1, 1, 2, 3]), commented))
             if self.rnd.random() < 0.3:
-                self.emit("# a comment line" + self.nl)
+                self.emit("# a comment line" + self.nlx(True))
             self.emit(self.rnd.choice(["", "    ", "\t", "  "]))
         elif r < 0.6 or must:
             self.emit(self.rnd.choice([" ", " ", "  ", "\t", " \t "]))
@@ -96,7 +113,7 @@ def quote(rnd, s):
         elif ch == "\t":
             out.append(rnd.choice(["\\t", "\t"]))
         elif ord(ch) < 32:
-            out.append("\\x%02x" % ord(ch))
+            out.append("\\x%02x" % ord(ch) if rnd.random() < 0.5 else ch)      # escaped, or raw between the quotes
         elif ord(ch) > 126 and rnd.random() < 0.3:
             out.append("\\u%04x" % ord(ch) if ord(ch) < 0x10000 else "\\U%08x" % ord(ch))
         else:
@@ -198,7 +215,7 @@ def plain_trailing_safe(v):
 def render_program(rnd, prog, nl):
     R_ = R(rnd, nl)
     if rnd.random() < 0.3:
-        R_.emit("# header comment" + nl + nl * rnd.randint(0, 2))
+        R_.emit("# header comment" + R_.nls(1 + rnd.randint(0, 2), True))
     exp = []
     for (res, cmd, args) in prog:
         R_.emit(rnd.choice(["", "", "  "]))
@@ -227,10 +244,11 @@ def render_program(rnd, prog, nl):
                 R_.emit(",")
         R_.gap()
         R_.emit(")")
-        if rnd.random() < 0.3:
+        done = rnd.random() < 0.3
+        if done:
             R_.emit("  # done")
         exp.append({"result": res, "cmd": cmd, "args": eargs, "line": start, "cmd_line": cline})
-        R_.emit(nl * rnd.randint(1, 3))
+        R_.emit(R_.nls(rnd.randint(1, 3), done))
     return R_.text(), exp, R_.floats
 
 
@@ -268,7 +286,7 @@ def main():
     valid_texts = []
     for i in range(n):
         prog = gen_program(rnd)
-        nl = rnd.choice(["\n", "\n", "\r\n"])
+        nl = rnd.choice(["\n", "\n", "\r\n", "mixed"])
         src, exp, floats = render_program(rnd, prog, nl)
         jobs.append(("valid", src, exp))
         valid_texts.append(src)
